@@ -1112,6 +1112,22 @@ func (e *Exec) index(x Value, idx *Term, it types.Type) Value {
 		i := e.idxInRange(idx, it, len(c))
 		return c[i]
 	case StrV:
+		if !idx.Const && c.Len() > 0 && c.Len() <= 256 {
+			// table lookup with a symbolic index: one in-range decision, then an ite chain (no fork
+			// per element)
+			tt := e.tt
+			n := c.Len()
+			inr := tt.ULt(idx, tt.BVConst(uint64(n), idx.S.W))
+			if !inr.IsTrue() && !e.Branch(inr) {
+				e.runtimePanic(fmt.Sprintf("runtime error: index out of range [sym] with length %d", n))
+			}
+			bs := e.strBytes(c)
+			r := bs[n-1]
+			for i := n - 2; i >= 0; i-- {
+				r = tt.Ite(tt.Eq(idx, tt.BVConst(uint64(i), idx.S.W)), bs[i], r)
+			}
+			return r
+		}
 		i := e.idxInRange(idx, it, c.Len())
 		if c.sym != nil {
 			return c.sym[i]
